@@ -498,13 +498,16 @@ def check(run, replay):
             failing.append((i, d))
 
     reported = {}
+    t_shrink = 0.0
     for i, d in failing:
         if d[0] in reported:          # one (shrunk) representative per failing clause
             reported[d[0]]["count"] += 1
             continue
         case = cases[i]
-        if replay is None:
+        if replay is None and t_shrink < 90:          # keep a failing run near the quick-tier budget
+            t1 = time.time()
             case = shrink(case, d[0], root)
+            t_shrink += time.time() - t1
         r2, m2, d2, extra = results[i], mvals[i], d, ""
         try:
             r2 = run_cases([case], root + "_d", detail=True)[0]
